@@ -238,6 +238,64 @@ def readerAlleneSign (e : Ends) (ord1 ord2 : List Nat) (isH : Nat → Bool) (mar
   let n2 ← firstIn ord2 e
   translateAllene (some e) isH n1 n2 none (some mark)
 
+/-! ## wedge bonds of a tetrahedron (`add_wedge`, `_MoleculeStereo__wedge_sign`) over integer coordinates -/
+
+def lift (p : V2) (z : Int) : V3 := (p.1, p.2, z)
+
+/-- `add_wedge(n, m, mark)`, tetrahedron branch, for a wedge that ends on a heavy neighbour `m`:
+`th` = `stereogenic_tetrahedrons[n]` with the 2-D coordinates of each neighbour, `pn` = coordinates of `n`,
+`explicitH` = coordinates of the explicit hydrogen when `len(bonds[n]) == 4` and `len(th) == 3`.
+Result: `some label` when the signed volume is non-zero (`atoms[n]._stereo = s > 0`), `none` when it is zero
+(nothing is stored), `error` for a neighbour list that is not 3 or 4 long (Python would raise `TypeError`
+from the call arity — not reachable for a stereogenic tetrahedron). -/
+def addWedgeHeavy (th : List (Nat × V2)) (pn : V2) (explicitH : Option V2) (m : Nat) (mark : Int) :
+    Except PyErr (Option Bool) :=
+  let order := th.map fun (x, p) => lift p (if x = m then mark else 0)
+  let s? : Option Int :=
+    match order with
+    | [u, v, w] =>
+      match explicitH with
+      | some ph => some (pyramidSign (lift ph 0) u v w)
+      | none => some (pyramidSign (lift pn 0) u v w)
+    | [u, v, w, t] => some (pyramidSign t u v w)
+    | _ => none
+  match s? with
+  | none => .error .valueError
+  | some s => .ok (if s = 0 then none else some (decide (s > 0)))
+
+/-- `add_wedge(n, m, mark)` for a wedge that ends on the explicit hydrogen `m` (coordinates `ph`) -/
+def addWedgeToH (th : List (Nat × V2)) (ph : V2) (mark : Int) : Except PyErr (Option Bool) :=
+  match th.map fun (_, p) => lift p 0 with
+  | [u, v, w] =>
+    let s := pyramidSign (lift ph mark) u v w
+    .ok (if s = 0 then none else some (decide (s > 0)))
+  | _ => .error .valueError
+
+/-- `__wedge_sign`, tetrahedron branch: `order` = a rotation of the neighbour tuple chosen by `_wedge_map`
+(wedge goes from `n` to `order[0]`); `th`, `explicitH` as above; `stored` = `atoms[n].stereo`. Returns the wedge mark
+(`1` up, `-1` down, `0` = ambiguous drawing).  With three neighbours the fourth point is the explicit hydrogen when
+there is one, else the centre (commit 7df698c; before it always the centre, see known_findings/C12.json). -/
+def wedgeSign (th : List (Nat × V2)) (pn : V2) (explicitH : Option V2) (order : List Nat) (isH : Nat → Bool)
+    (stored : Option Bool) : Except PyErr Int := do
+  let s ← translateTetra (th.map (·.1)) order isH stored none
+  let coord (x : Nat) : Except PyErr V2 :=
+    match th.lookup x with
+    | some p => .ok p
+    | none => .error .keyError
+  match order with
+  | [o0, o1, o2] =>
+    let p0 ← coord o0; let p1 ← coord o1; let p2 ← coord o2
+    let apex := match explicitH with
+      | some ph => ph
+      | none => pn
+    let v := pyramidSign (lift apex 0) (lift p0 1) (lift p1 0) (lift p2 0)
+    pure (if s then v else -v)
+  | [o0, o1, o2, o3] =>
+    let p0 ← coord o0; let p1 ← coord o1; let p2 ← coord o2; let p3 ← coord o3
+    let v := pyramidSign (lift p3 0) (lift p0 1) (lift p1 0) (lift p2 0)
+    pure (if s then v else -v)
+  | _ => .error .valueError
+
 /-! ## stereogenicity of one double bond (`MoleculeStereo.__chiral_centers`, cis-trans part) -/
 
 /-- `any(len(x) < 8 for x in atoms_rings[n] if m in x)`: the "skip small rings" test; `sizes` = sizes of the SSSR rings
